@@ -3,7 +3,7 @@
    type of a call is the union of the body's result and the explicit return values.  Proved: that union covers every
    call site (scalar argument types).  How ti reaches it — four rounds of replace-or-union in
    propagationForCalledTo — is exercised end to end, not modelled.  Proofs in InferP.v. *)
-From RT Require Import Model.Infer Proofs.InferP.
+From RT Require Import Model.Infer Proofs.InferP Model.Returns Proofs.ReturnsP.
 
 Theorem C15_parameter_covers_call_sites : forall n args a, forallb scalar args = true -> In a args ->
   exists v, In v (t_vars (fold_left (fun acc v => append_variant (S n) acc v) args (MakeUnion []))) /\ same_kind v a = true.
@@ -18,4 +18,17 @@ Print Assumptions C15_parameter_is_the_union.
 
 Example C15_example :
   map t_cls (t_vars (fold_left (fun acc v => AppendVariant acc v) [MakeIntLit; MakeString "s"; MakeIntLit] (MakeUnion []))) = ["Integer"; "String"].
+Proof. vm_compute. reflexivity. Qed.
+
+(* "A call returns the type of the body's result, including explicit `return` values": on the model of the return
+   collection (parser.AppendLastReturnT, Return.Evaluation, Def.evaluationBody, the block of a lambda), the type of a
+   method holds exactly the value of the body's last statement and the `return` values written outside lambdas — at any
+   depth of blocks — and nothing else *)
+Theorem C15_returns_collected : forall body x,
+  In x (method_type true body) <-> In x (flat_map outer_returns body) \/ x = last_value body.
+Proof. exact method_type_exact. Qed.
+Print Assumptions C15_returns_collected.
+
+Example C15_returns_example :
+  method_type true [RReturn "Symbol"; RLambda [RReturn "String"]; RBlock [RReturn "Integer"] "Array<Integer>"] = ["Symbol"; "Integer"; "Array<Integer>"].
 Proof. vm_compute. reflexivity. Qed.
